@@ -338,6 +338,13 @@ func (ex *Exec) call(caller *frame, callpos token.Pos, fn Value, args []Value) V
 	panic(engineError{fmt.Sprintf("cannot call %T", fn)})
 }
 
+// callSSARaw interprets fn's own body even when an intrinsic of the same
+// name exists (used by intrinsics that fall back to the real code).
+func (ex *Exec) callSSARaw(caller *frame, fn *ssa.Function, args []Value) Value {
+	ex.rawCall = fn
+	return ex.callSSA(caller, token.NoPos, fn, args, nil)
+}
+
 func (ex *Exec) callTop(entry *ssa.Function) {
 	ex.callSSA(nil, token.NoPos, entry, nil, nil)
 }
@@ -357,7 +364,9 @@ func (ex *Exec) callSSA(caller *frame, callpos token.Pos, fn *ssa.Function, args
 				return ex.callSSA(caller, callpos, stub, args, nil)
 			}
 		}
-		if intr := intrinsics[name]; intr != nil {
+		if ex.rawCall == fn {
+			ex.rawCall = nil
+		} else if intr := intrinsics[name]; intr != nil {
 			return intr(ex, fr, args)
 		}
 		if fp := fastPaths[name]; fp != nil {
